@@ -112,6 +112,9 @@ def gen_dataset_cfg(rng, flavor='general', big=False):
         cfg['nloc_tf'] = rng.randint(2, nt)
         p['tfeature_rows'] = rng.random() < 0.3
     p['attrs'] = rng.random() < 0.3
+    if p['attrs'] and rng.random() < 0.4:
+        cfg['attr_names_extra'] = rng.sample(['times_sec', 'clusters_orig', 'amplitudes_uv',
+                                              'templates_old', 'samples2', 'time'], 2)
     p['reordered'] = rng.random() < 0.15
     p['raw'] = rng.random() < 0.5
     if not p['raw'] and rng.random() < 0.3:
@@ -367,6 +370,9 @@ def build_gt(cfg):
     if p['attrs']:
         g.attrs['works'] = np.round(rs.uniform(size=ns), 4)
         g.attrs['randn'] = np.round(rs.normal(size=(ns, 2)), 4)
+        for name in cfg.get('attr_names_extra') or []:
+            # names that merely BEGIN like one of the files the loader reads itself
+            g.attrs[name] = np.round(rs.uniform(size=ns), 3)
     g.reordered = (g.samples + rs.randint(-3, 4, size=ns)) if p['reordered'] else None
     # raw data
     g.raw = None
@@ -378,6 +384,11 @@ def build_gt(cfg):
             g.raw = rs.randint(-3000, 3000, size=(n_rec, n_dat)).astype(dt)
         else:
             g.raw = np.round(rs.normal(size=(n_rec, n_dat)) * 50, 2).astype(dt)
+            for j, (frac, ch) in enumerate(cfg['raw'].get('nonfinite') or []):
+                # saturated / corrupt samples of a float recording, close to spikes
+                i = int(g.samples[int(frac * (ns - 1))]) + (j % 3) - 1
+                if 0 <= i < n_rec:
+                    g.raw[i, ch % n_dat] = [np.inf, -np.inf, np.nan][j % 3]
     # poisoned values
     g.nan_templates = []
     g.nan_columns = []
